@@ -178,6 +178,13 @@ func HarnessC14(inForm, outForm, k, errPos int) {
 		}
 		outs = append([]reflect.Type{errType}, outs...)
 		wantOut = append([]hLabel{{T: -2}}, wantOut...)
+	case 3:
+		// two trailing errors: only the final one is the error slot, the other is an output
+		if outForm != 0 && outForm != 5 {
+			vnAssume(false)
+		}
+		outs = append(outs, errType, errType)
+		wantOut = append(wantOut, hLabel{T: -2})
 	}
 	vnNote(fmt.Sprintf("in=%v out=%v (forms %d/%d, errPos %d)", ins, outs, inForm, outForm, errPos))
 	ft := reflect.FuncOf(ins, outs, false)
@@ -205,6 +212,17 @@ func HarnessC14(inForm, outForm, k, errPos int) {
 			vnAssert(len(got) == len(want), tag+".values-count")
 			if len(got) == len(want) {
 				vnAssert(got[0].Type == errType && got[0].Name == "", tag+".leading-error-is-an-output")
+			}
+			return
+		}
+		if len(want) > 0 && want[len(want)-1].T == -2 {
+			vnAssert(len(got) == len(want), tag+".values-count")
+			if len(got) == len(want) {
+				last := got[len(got)-1]
+				vnAssert(last.Type == errType && last.Name == "", tag+".non-final-error-is-an-output")
+				for i, w := range want[:len(want)-1] {
+					vnAssert(got[i].Name == w.Name && got[i].Type == hType(w.T) && got[i].Subtype == w.Sub, tag+".outputs-before-the-errors")
+				}
 			}
 			return
 		}
